@@ -66,6 +66,7 @@ func C14(e *simkern.Env) {
 		for c := 0; c < clients; c++ {
 			c := c
 			sim.Spawn(fmt.Sprintf("client%d", c), func() {
+				prevCall := ""
 				for p := 0; p < nPairs && !e.Violated(); p++ {
 					sim.Y("client.pair")
 					x := c14Methods[tp.Draw(len(c14Methods))]
@@ -108,7 +109,19 @@ func C14(e *simkern.Env) {
 					before := hx.Rec.Get(nonce)
 					target := cl.Inst[tp.Draw(len(cl.Inst))]
 					sim.Fault("misroute")
-					resp := httpw.Post(target, "/"+y.name+"/exchange", httpw.ContBody(t.Cursor, t.Call, shape == 2, in, false, hx.Meta{}), httpw.Ident{}, nil)
+					callTok := t.Call
+					switch tp.Draw(5) {
+					case 0: // the misrouted request lost its call token on the way
+						callTok = ""
+						sim.Fault("misroute-without-call-token")
+					case 1: // ... or carries the call token of an earlier stream
+						if prevCall != "" {
+							callTok = prevCall
+							sim.Fault("misroute-with-other-call-token")
+						}
+					}
+					prevCall = t.Call
+					resp := httpw.Post(target, "/"+y.name+"/exchange", httpw.ContBody(t.Cursor, callTok, shape == 2, in, false, hx.Meta{}), httpw.Ident{}, nil)
 					after := hx.Rec.Get(nonce)
 					site := fmt.Sprintf("%s(%s)->%s(%s)", x.name, x.kind, y.name, y.kind)
 					sample = append(sample, fmt.Sprintf("%s shape=%d status=%d", site, shape, resp.Status))
@@ -160,6 +173,6 @@ func init() {
 		Real:  []string{"vgirpc.HttpServer.handleStreamExchange, token open/resolve, producer/exchange/cancel continuation paths"},
 		Stub:  []string{"HTTP transport (direct ServeHTTP with net/http-style panic capture)", "scripted states"},
 		Quick: 800, Thorough: 60000,
-		Warm: warmHTTP, FaultKinds: []string{"misroute"},
+		Warm: warmHTTP, FaultKinds: []string{"misroute", "misroute-without-call-token", "misroute-with-other-call-token"},
 	}
 }
